@@ -34,7 +34,7 @@ import (
 	"verifharness/h"
 )
 
-var c16FlagRe = regexp.MustCompile(`"([a-z0-9-]+)=([a-z]+)Minifier\.([A-Za-z0-9]+)"`)
+var c16FlagRe = regexp.MustCompile(`"([a-z0-9-]+)=([a-z]+)\.([A-Za-z0-9]+)"`) // flag=package.Field (the translator names the option struct by its package)
 
 func c16Flags() ([][3]string, error) {
 	b, err := os.ReadFile(filepath.Join(h.Root(), "lean", "Verif", "Gen", "CliFlags.lean"))
@@ -49,6 +49,9 @@ func c16Flags() ([][3]string, error) {
 	var out [][3]string
 	for _, m := range c16FlagRe.FindAllSubmatch(b[i:j], -1) {
 		out = append(out, [3]string{string(m[1]), string(m[2]), string(m[3])})
+	}
+	if len(out) == 0 {
+		return nil, fmt.Errorf("CliFlags.lean: no `flag=package.Field` entries found")
 	}
 	return out, nil
 }
